@@ -8,22 +8,22 @@ namespace Evalexpr.Spec
 open Evalexpr
 
 /-- one parenthesis level of the root stack (head = top) -/
-inductive Level : List Node → Prop
-  | r (R : Node) : R.op.kind = .rootNode → Level [R]
-  | t (T P : Node) : T.op.kind = .tuple → P.op.kind = .rootNode → Level [T, P]
-  | c (C P : Node) : C.op.kind = .chain → P.op.kind = .rootNode → Level [C, P]
+inductive StkLevel : List Node → Prop
+  | r (R : Node) : R.op.kind = .rootNode → StkLevel [R]
+  | t (T P : Node) : T.op.kind = .tuple → P.op.kind = .rootNode → StkLevel [T, P]
+  | c (C P : Node) : C.op.kind = .chain → P.op.kind = .rootNode → StkLevel [C, P]
   | tc (T C P : Node) : T.op.kind = .tuple → C.op.kind = .chain → P.op.kind = .rootNode →
-      Level [T, C, P]
+      StkLevel [T, C, P]
 
 /-- a stack of `n` levels -/
 inductive Stk : Nat → List Node → Prop
   | nil : Stk 0 []
-  | cons {l s : List Node} {n : Nat} : Level l → Stk n s → Stk (n + 1) (l ++ s)
+  | cons {l s : List Node} {n : Nat} : StkLevel l → Stk n s → Stk (n + 1) (l ++ s)
 
-theorem Level.ne_nil {l : List Node} (h : Level l) : l ≠ [] := by
+theorem StkLevel.ne_nil {l : List Node} (h : StkLevel l) : l ≠ [] := by
   cases h <;> simp
 
-theorem Level.length_pos {l : List Node} (h : Level l) : 0 < l.length := by
+theorem StkLevel.length_pos {l : List Node} (h : StkLevel l) : 0 < l.length := by
   cases h <;> simp
 
 theorem Stk.length_ge {n : Nat} {s : List Node} (h : Stk n s) : n ≤ s.length := by
@@ -32,7 +32,7 @@ theorem Stk.length_ge {n : Nat} {s : List Node} (h : Stk n s) : n ≤ s.length :
   | cons hl _ ih => have := hl.length_pos; simp; omega
 
 theorem Stk.inv {n : Nat} {st : List Node} (h : Stk (n + 1) st) :
-    ∃ l s, Level l ∧ Stk n s ∧ st = l ++ s := by
+    ∃ l s, StkLevel l ∧ Stk n s ∧ st = l ++ s := by
   cases h with
   | cons hl hs => exact ⟨_, _, hl, hs, rfl⟩
 
@@ -40,7 +40,7 @@ theorem Stk.zero {s : List Node} (h : Stk 0 s) : s = [] := by
   cases h; rfl
 
 theorem Stk.single (R : Node) (h : R.op.kind = .rootNode) : Stk 1 [R] :=
-  Stk.cons (Level.r R h) Stk.nil
+  Stk.cons (StkLevel.r R h) Stk.nil
 
 section kinds
 variable {o : Operator}
@@ -88,8 +88,8 @@ theorem pushNode_any (s : List Node) (root node : Node) :
   | true => exact pushNode_seq s root node hs
   | false => exact pushNode_root s root node hs
 
-theorem Level.replace_top {root root' : Node} {l : List Node} (h : Level (root :: l))
-    (ho : root'.op = root.op) : Level (root' :: l) := by
+theorem StkLevel.replace_top {root root' : Node} {l : List Node} (h : StkLevel (root :: l))
+    (ho : root'.op = root.op) : StkLevel (root' :: l) := by
   cases h with
   | r _ h1 => exact .r _ (by rw [ho]; exact h1)
   | t _ P h1 h2 => exact .t _ P (by rw [ho]; exact h1) h2
@@ -98,9 +98,9 @@ theorem Level.replace_top {root root' : Node} {l : List Node} (h : Level (root :
 
 /-- the result of a step on the top level: a non-brace error, or a new top level -/
 def StepOK (r : Res (List Node)) (s : List Node) : Prop :=
-  (∃ e, r = .error e ∧ isBraceErr e = false) ∨ (∃ l', Level l' ∧ r = .ok (l' ++ s))
+  (∃ e, r = .error e ∧ isBraceErr e = false) ∨ (∃ l', StkLevel l' ∧ r = .ok (l' ++ s))
 
-theorem pushNode_level {root : Node} {l s : List Node} (h : Level (root :: l)) (node : Node) :
+theorem pushNode_level {root : Node} {l s : List Node} (h : StkLevel (root :: l)) (node : Node) :
     StepOK (pushNode (l ++ s) root node) s := by
   rcases pushNode_any (l ++ s) root node with h1 | ⟨root', ho, h2⟩
   · exact .inl h1
